@@ -8,7 +8,7 @@ for name in "$@"; do
   if ! git -C $wt apply $PWD/$d/patch.diff 2>$d/apply.err; then echo "$name: patch does not apply: $(head -2 $d/apply.err)" | tee $d/result.txt; git -C /repo worktree remove --force $wt; continue; fi
   rm -f $d/apply.err
   start=$(date +%s)
-  VERIF_REPO=$wt ./check $pid --tier quick > $d/check.log 2>&1; rc=$?
+  VERIF_REPO=$wt ./check $pid --tier quick --jobs ${SEED_JOBS:-8} > $d/check.log 2>&1; rc=$?
   end=$(date +%s)
   { echo "check: VERIF_REPO=<worktree with patch.diff applied> ./check $pid --tier quick"; echo "exit code: $rc   wall: $((end-start)) s"; grep -E "VIOLATION|violated|INCONCLUSIVE|BROKEN|OK property" $d/check.log | head -12; } > $d/result.txt
   echo "$name rc=$rc $(grep -c VIOLATION $d/check.log) violation lines"
